@@ -466,6 +466,13 @@ func genC04(r *Rand, tier, profile string) *Case {
 		n = r.Range(2, 50)
 	}
 	sessions := []string{"s1", "s2", "s3"}
+	pickID := func(lo int) int64 { return int64(r.Range(lo, 3)) }
+	if r.Bool(0.3) {
+		// session ids are whatever the authentication provider hands out: device names that are
+		// prefixes of each other, with identifiers whose digits continue them
+		sessions = []string{"dev", "dev1", "dev12"}
+		pickID = func(lo int) int64 { return int64(r.PickInt([]int{1, 2, 3, 12, 21, 23, 123})) }
+	}
 	base := int64(0)
 	type live struct {
 		s  string
@@ -476,14 +483,14 @@ func genC04(r *Rand, tier, profile string) *Case {
 	for i := 0; i < n; i++ {
 		switch x := r.Intn(10); {
 		case x < 5:
-			st := Step{K: "ins", S: r.Pick(sessions), I: int64(r.Range(0, 3)), Q: r.Range(1, 4), J: base + c04Lattice[r.Intn(len(c04Lattice))]}
+			st := Step{K: "ins", S: r.Pick(sessions), I: pickID(0), Q: r.Range(1, 4), J: base + c04Lattice[r.Intn(len(c04Lattice))]}
 			if r.Bool(0.1) {
 				st.J = base - int64(r.Range(0, 3000)) // already past
 			}
 			c.Steps = append(c.Steps, st)
 			lives = append(lives, live{st.S, st.I, st.Q})
 		case x < 8:
-			st := Step{K: "ack", S: r.Pick(sessions), I: int64(r.Range(1, 3)), Q: r.Range(4, 7)}
+			st := Step{K: "ack", S: r.Pick(sessions), I: pickID(1), Q: r.Range(4, 7)}
 			if len(lives) > 0 && r.Bool(0.7) {
 				l := lives[r.Intn(len(lives))]
 				st.S, st.I = l.s, l.id
